@@ -47,6 +47,7 @@ THEOREMS = [
     "HedVerif.C14.conversionFactor_exact",
     "HedVerif.C14.hedId_exact",
     "HedVerif.C14.hedId_malformed",
+    "HedVerif.C14.hedId_zero_flagged",
     "HedVerif.C14.itemExists_silent_of_found",
 ]
 BUDGET = {"quick": 400, "thorough": 3000}
@@ -609,6 +610,40 @@ def gen_seeds(rng, ms, n, full, per=None, controls=True):
 DUP_CODES = ("SCHEMA_DUPLICATE_NODE", "SCHEMA_LIBRARY_INVALID")
 
 
+def gen_hedid_boundaries(rng, ms, ranges, full, old_ids=None):
+    """boundary ids taken from the range table (library_data.json, our own reading): 0, start-1, start, end-1, end,
+    end+1 of the entry's own library and the first id of another library's range.  `verify_tag_id` tests
+    `new_id < start or new_id > end`: the interval is closed at both ends.  Expectation, independent of the
+    truthiness of the number: flagged iff outside [start, end] - or, when the previous release has an id for the
+    entry (`old_ids`), iff outside or different from it."""
+    table = {r[0]: (r[1], r[2]) for r in ranges}
+    out = []
+    for sec in SECS:
+        rows = ms["secs"][sec]
+        cands = {}
+        for i, r in enumerate(rows):
+            a = dict(map(tuple, r[1]))
+            if "hedId" not in a or r[0].endswith("/#"):
+                continue
+            lib = (a.get("inLibrary") or "").split(",")[0]
+            if lib in table:
+                cands.setdefault(lib, []).append(i)
+        for lib, idx in sorted(cands.items()):
+            if not full and sec not in ("tags", "units"):
+                continue
+            lo, hi = table[lib]
+            other = next((v[0] for k, v in sorted(table.items()) if k != lib), hi + 1)
+            vals = [0, lo - 1, lo, hi - 1, hi, hi + 1, other]
+            for i in rng.sample(idx, min(len(idx), 3 if full else 1)):
+                chosen = vals if full else [0] + rng.sample(vals[1:], 2 if sec == "tags" else 1)
+                for n_ in chosen:
+                    old = (old_ids or {}).get((sec, rows[i][0]))
+                    flagged = n_ < lo or n_ > hi or (old is not None and old != n_)
+                    out.append({"k": "hedId", "t": sec, "i": i, "v": "HED_%07d" % n_, "boundary": n_, "lib": lib,
+                                "entry": rows[i][0], "expect_flag": flagged})
+    return out
+
+
 def with_side(attrs, lib):
     """the attributes of a copy that is a library entry (`lib`) or a standard one (None)"""
     out = [[a, v] for a, v in attrs if a != "inLibrary"]
@@ -798,6 +833,14 @@ def compare_case(ctx, name, sd, mres, root, els=None, gen=None):
         ctx.violation("warnings-off-returned-a-non-error", case, off[:5])
     if [i for i in on if i[1] == 1] != off:
         ctx.violation("warnings-off-not-the-error-subset", case, {"on_errors": [i for i in on if i[1] == 1][:5], "off": off[:5]})
+    if "expect_flag" in sd:
+        flagged = any(i[0] == "SCHEMA_ATTRIBUTE_VALUE_INVALID" and i[4] == "hedId" and i[3] == sd["entry"] for i in on)
+        ctx.count(f"hedId-boundary:{'zero' if sd['boundary'] == 0 else 'nonzero'}:{'outside' if sd['expect_flag'] else 'inside'}")
+        if flagged != sd["expect_flag"]:
+            ctx.violation("hedId-range-boundary-wrong-verdict", case, {"expected_flagged": sd["expect_flag"], "reported": on[:4]})
+        if adm != sd["expect_flag"]:
+            ctx.disagree("admissible(hedId) = outside the closed id range of the entry's library (or changed)", case, adm, sd["expect_flag"])
+        return on
     if k == "dupAt":
         ctx.count(f"dupAt:{sd['t']}:{sd['place']}:{'clash' if sd['flipped'] else 'same-side'}")
         if not adm:
@@ -829,6 +872,7 @@ def run_schema(ctx, sess, name, seeded, n, full, per=None, controls=True):
     seeds = gen_seeds(ctx.rng, ms, n, full, per, controls) if seeded else []
     if seeded:
         seeds += gen_dup_seeds(ctx.rng, ms, pluralize.plural, full and name in SEEDED)
+        seeds += gen_hedid_boundaries(ctx.rng, ms, env["ranges"], full and name in SEEDED)
     ans = mbatch(ctx, [{"op": "c14.run", "schema": ms, "env": env, "seeds": [wire(s) for s in seeds]}])[0]
     if "bad-op" in ans:
         raise RuntimeError(f"model rejected {name}: {ans}")
@@ -875,6 +919,13 @@ def run_changed_hedid(ctx, n):
             rows = [i for i, r in enumerate(ms["secs"][sec]) if any(a == "hedId" for a, _ in r[1])]
             for i in pick(ctx.rng, rows, n if sec == "tags" else max(2, n // 6), False):
                 seeds.append({"k": "hedId", "t": sec, "i": i, "v": ctx.rng.choice(["HED_0012999", "HED_0019998"])})
+        old_ids = {}
+        for lib, sec, name_, v in env["prev"]:
+            try:
+                old_ids[(sec, name_)] = int(v[4:] if v.startswith("HED_") else v)
+            except ValueError:
+                pass
+        seeds += gen_hedid_boundaries(ctx.rng, ms, env["ranges"], False, old_ids)       # entries WITH an id in the previous release
         ans = mbatch(ctx, [{"op": "c14.run", "schema": ms, "env": env, "seeds": [wire(s) for s in seeds]}])[0]
         for sd, mres in zip(seeds, ans["seeds"]):
             compare_case(ctx, "8.3.0+predecessor", sd, mres, root)
@@ -910,6 +961,10 @@ def run(ctx):
                      "node and at top level, as same-side copy and as library-vs-standard clash; the exact code (DUPLICATE_NODE "
                      "vs LIBRARY_INVALID) is expected from our own reading of the inLibrary attributes, warnings on and off; the "
                      "copy follows the original in document order (the model appends it to the section); histogram keys dupAt:*")
+    ctx.notes.append("hedId boundaries: 0, start-1, start, end-1, end, end+1 of the entry's own library range and the first id of "
+                     "another library, from library_data.json; expected flagged iff outside the closed interval [start, end] "
+                     "(verify_tag_id: new_id < start or new_id > end), whatever the truthiness of the number; entries without a "
+                     "previous id in every tier, with one (synthetic predecessor: also flagged when different) in the thorough tier")
     ctx.notes.append("hed cache = scratch folder pre-populated from the bundled schema_data (offline)")
     full = not ctx.quick()
     n = 2 if ctx.quick() else 30
